@@ -36,6 +36,9 @@ type COp struct {
 	Res     int         `json:"res,omitempty"`
 	Spec    *FilterSpec `json:"spec,omitempty"`
 	Illegal string      `json:"illegal,omitempty"` // illegal class the generator aimed for ("" = legal intent)
+	// CloneOf[i] != zero: the value of Add[i] is handed over as the pointer World.Get returns for that entity's component
+	// ("clone a template entity"); Vals[i] is that entity's value
+	CloneOf []ecs.Entity `json:"cloneOf,omitempty"`
 }
 
 // Result of applying a COp to a real world.
@@ -113,6 +116,7 @@ type Sys struct {
 
 	// queries that the listener opened inside a removal notification and did NOT close before returning (legal: a query
 	// may be opened on a locked world and outlive the removal's own lock); released by Apply right after the operation
+	cloneOf     []ecs.Entity
 	kept        []*ecs.Query
 	KeptTrouble string
 	KeptSeen    int
@@ -143,7 +147,14 @@ func NewSys(name string, p *Plan) *Sys {
 	for i := 0; i < p.ResTypes; i++ {
 		// odd indices are registered up front, even ones at first use (possibly in a locked world); plans with many
 		// resource types register nearly all of them up front so that the high IDs are reached at all
-		if i%2 == 1 || (p.ResTypes > 32 && i%37 != 0) {
+		up := i%2 == 1 || (p.ResTypes > 32 && i%37 != 0)
+		switch p.ResLazy {
+		case 1:
+			up = false
+		case 2:
+			up = i%3 == 0
+		}
+		if up {
 			s.resID(i)
 		}
 	}
@@ -584,6 +595,12 @@ func (s *Sys) comps(ts []int, vals [][]byte) []ecs.Component {
 		if i < len(vals) {
 			v = vals[i]
 		}
+		if i < len(s.cloneOf) && !s.cloneOf[i].IsZero() && s.W.Alive(s.cloneOf[i]) {
+			if p := s.W.Get(s.cloneOf[i], s.IDs[t]); p != nil {
+				out[i] = ecs.Component{ID: s.IDs[t], Comp: reflect.NewAt(s.Types[t], p).Interface()}
+				continue
+			}
+		}
 		out[i] = ecs.Component{ID: s.IDs[t], Comp: s.makeValue(t, v)}
 	}
 	return out
@@ -805,6 +822,7 @@ func (s *Sys) Apply(op *COp) (res Result) {
 	}()
 	w := s.W
 	s.applySeq++
+	s.cloneOf = op.CloneOf
 	switch op.Kind {
 	case "new":
 		switch op.Variant {
